@@ -21,6 +21,15 @@ func c11Normalise(c *Ctx) {
 	if os.Getenv("VX_NO_NORMALISE") != "" {
 		return
 	}
+	if c.P.Pkg("vaxis") == nil {
+		return
+	}
+	// new helpers with named results become candidates of the helper inliner (c11unname.go); the inliner is run
+	// again with the reference list as anchors, exactly as in the global pre-pass
+	if c11UnnameResults(c, "vaxis") {
+		c15NormaliseOpt(c, []string{"vaxis"}, refFuncNames, false)
+		installAccessorResolver(c.P)
+	}
 	pk := c.P.Pkg("vaxis")
 	if pk == nil {
 		return
